@@ -473,7 +473,7 @@ class ActionLink(Action):
                     del_target_key(f"{action.dest}.init_args.{key}")
 
         with _ActionSubCommands.not_single_subcommand():
-            subcommands, subparsers = _ActionSubCommands.get_subcommands(parser, cfg)
+            subcommands, subparsers = _ActionSubCommands.get_subcommands(parser, cfg, fail_no_subcommand=False)
         if subcommands is not None:
             for num, subcommand in enumerate(subcommands):
                 if subcommand in cfg:
